@@ -15,16 +15,16 @@ CHECKS = {
     "C18": (MC, "4.C18", "explicit-state invariant checking: admissibility invariant evaluated on every reported state of every trace of a lattice that includes coarse discretisations (first step removes 10%..1000% of the feed) and programmes crossing 0 K",
             "No returned trajectory in the explored lattice contains a state with non-positive mass, fractions outside [0,1], non-positive or non-finite temperature, or non-finite fluxes/heats, and no returned trajectory ends with a step whose own balance exhausts the feed (look-ahead by the reference stepper); raising is accepted.",
             "a raising call is always acceptable for this property; lattice, not continuum"),
-    "C02": (EX, "4.C02", "bounded exhaustive enumeration of a finite lattice of flux calculations through a harness-side observing subclass (seam on the fixed-point iteration); driving-force law at the last evaluated permeate composition, vacuum law, pressure identity, self-consistency where contractive, bit-exact power-of-two scaling",
+    "C02": (EX, "4.C02", "bounded exhaustive enumeration of a finite lattice of flux calculations through a harness-side observing subclass (seam on the fixed-point iteration); driving-force law at the last evaluated permeate composition, vacuum law, pressure identity, self-consistency where contractive (incl. slowly contracting pressure-mode states harvested beside the neutral-cycle pressure), bit-exact power-of-two scaling",
             "Every returned flux pair in the lattice satisfies the solution-diffusion law at the permeate composition actually used (1e-12; the observed estimate is converted by its own basis label), the exact-scaling twin runs are bit-identical, and the same question asked again on the same object after a coarser-precision question still satisfies the law within the requested precision (seam-free form).",
             "get_partial_pressures taken as given (C04); pressure mode accepts mass or mole permeate fractions; raising/non-converging cases only counted (C10)"),
-    "C10": (MC, "4.C10", "lasso detection on the exact float orbit of the permeate-composition iteration (explicit-state liveness): a revisited float state plus continued iteration beyond B=1e6 evaluations is a violation; aperiodic budget exhaustion is undecided; also every step of process models near equilibrium",
+    "C10": (MC, "4.C10", "lasso detection on the exact float orbit of the permeate-composition iteration (explicit-state liveness): a revisited float state plus continued iteration beyond B=1e6 evaluations is a violation; aperiodic budget exhaustion is undecided; also every step of process models near equilibrium, and pressure-mode states at the harvested pressure where the map is an involution (neutral 2-cycles)",
             "No flux calculation in the lattice (dense near feed/permeate equilibrium, where attracting cycles exist) is still iterating after 1e6 evaluations, on a periodic orbit or otherwise; the dangerous states found (cycling or > 20000 evaluations) are then driven through all 8 public entry points (4 process models, 2 curve models, 2 helpers), each of which must return or raise.",
             "B=1e6 is the harness's reading of 'bounded'; memoised evaluation after proved periodicity; undecided orbits are not violations"),
     "C04": (EX, "4.C04", "bounded exhaustive enumeration of mixtures (8 built-in, 4 synthetic, lattice of synthetic NRTL/UNIQUAC parameters) x model x T x x; Gibbs-Duhem by Richardson finite differences with self-estimated truncation error; pure limits; Raoult limit; x*gamma*Psat; known-finding signature test for K1",
             "NRTL is thermodynamically consistent on the whole lattice; UNIQUAC gamma_1 is; UNIQUAC gamma_2 deviates exactly as the documented typo K1 predicts (KNOWN-FINDING) and any other deviation is a violation.",
             "FD identities at relative 1e-6 + estimated truncation error; vapour pressure taken as given"),
-    "C12": (EX, "4.C12", "bounded exhaustive enumeration incl. ALL orderings of the experiment list (n<=4; rotations+reversals n=5,6) against a closed-form reference (nearest experiment, Arrhenius line, least-squares slope)",
+    "C12": (EX, "4.C12", "bounded exhaustive enumeration incl. ALL orderings of the experiment list (n<=4; rotations+reversals n=5,6) against a closed-form reference (nearest experiment, Arrhenius line, least-squares slope); query histories on one membrane object incl. editing its experiment list between queries",
             "Every query in the lattice returns the measured value at an experiment temperature and the Arrhenius-extrapolated nearest value elsewhere, independent of list order; regression recovers Ea; selectivity and pure-component flux identities hold.",
             "Permeance.convert taken as given (C14); experiments lie on one Arrhenius line"),
     "C13": (EX, "4.C13", "bounded exhaustive enumeration over components / constant triples x temperatures; Clausius-Clapeyron and dQ/dT=Cp by Richardson finite differences; additivity/antisymmetry exact",
@@ -36,13 +36,13 @@ CHECKS = {
     "C15": (EX, "4.C15", "bounded exhaustive enumeration of a fraction lattice (dense within 1e-15 of both ends) x molar-mass pairs x direction against exact rational arithmetic; monotonicity over all lattice neighbours",
             "Conversion equals the exact rational image, round-trips, fixes end points, keeps first+second=1, obeys the ratio law and is monotone on every neighbouring lattice pair; out-of-range values rejected.",
             "finite lattice"),
-    "C19": (EX, "4.C19", "bounded exhaustive enumeration of entry points x specification cells (permeate T given?, p given?) x valid argument lattice; missing-parameter classes at every model-taking entry point; existential positive control per (entry point, valid cell)",
+    "C19": (EX, "4.C19", "bounded exhaustive enumeration of entry points x specification cells (permeate T given?, p given?) x valid argument lattice; missing-parameter classes at every model-taking entry point; existential positive control per (entry point, valid cell); zero-point curves and no-driving-force pressures included",
             "Every entry point named by the statement raises for the double specification and for missing model parameters/constants, while each accepts at least one case of every valid cell; curve without data, mixture without parameters, <2 experiments without Ea are rejected at every site.",
             "any Exception subclass counts as rejection; DiffusionCurve-from-permeances is a negative control only"),
     "C08": (MC, "4.C08", "explicit-state trace conformance: every step of every process trace replayed against the standalone flux solver at the reported state (bit-identical), plus exhaustive differential comparison of five entry points on a model-sensitive lattice",
             "Solver, helpers, one-point curve and step 0 of the ideal models report bit-identical fluxes for the requested model - also when the same object answered the other model first; the solver honours the model on both sides of the membrane (independent oracle through the seam); derived quantities are consistent; every process step equals a standalone calculation at its reported state and, for ideal models, one that takes its permeances from the membrane at the step's temperature.",
             "bit-identity demanded only where the same computation runs on the same floats; molar feeds compared with rounding-aware tolerance"),
-    "C09": (EX, "4.C09", "bounded exhaustive enumeration of a round trip: real solver forward (precision 1e-12), curve-class inverse; permeance->flux->permeance through the curve class in 3 units; two-sided known-finding signature for K2",
+    "C09": (EX, "4.C09", "bounded exhaustive enumeration of a round trip: real solver forward (precision 1e-12), curve-class inverse (a raising inverse where the solver returns is a violation); permeance->flux->permeance through the curve class in 3 units; two-sided known-finding signature for K2",
             "In vacuum and permeate-temperature mode the curve reports the supplied permeances back (1e-6) on the whole well-conditioned lattice, always in kg/(m2 h kPa); in pressure mode p>0 the deviation is exactly the documented mass-vs-mole-fraction mismatch K2 (KNOWN-FINDING), anything else is a violation.",
             "NRTL only; cases with driving force < 1% of the partial pressures counted, not judged"),
     "C11": (MC, "4.C11", "explicit-state simulation relation between each trace and its scaled twins (size scaling, area/time trade, single-factor step-0 twins); bit-exact for power-of-two factors",
@@ -57,13 +57,13 @@ CHECKS = {
     "C07": (MC, "4.C07", "explicit-state simulation relation between every run and its re-based twin (mass vs mole fraction, exact rational conversion) over point entry points, curves and their metrics, measurement extraction, non-ideal curves and all 4 process models state by state",
             "Every entry point in the lattice gives the same fluxes, permeances, trajectories, metrics and measurement points for a mass-fraction input and the equivalent mole fraction; process models always report mass fractions.",
             "twins run at precision 1e-10, compared at 2e-7 (1e-10 in vacuum); flux calculations slower than 20000 evaluations are not judged"),
-    "C16": (MC, "4.C16", "explicit-state breadth-first search over histories of fit / find_best_fit / fit_vle calls on shared data with canonical state hashing (caller's data + library singletons, class defaults, module state); invariant after every transition; fresh-interpreter differential oracle per operation; best-of oracle; evaluation-formula lattice",
+    "C16": (MC, "4.C16", "explicit-state breadth-first search over histories of fit / find_best_fit / fit_vle calls on shared data with canonical state hashing (caller's data + library singletons, class defaults, module state); invariant after every transition; fresh-interpreter differential oracle per operation; the harness edits every returned function in place; best-of oracle; evaluation-formula lattice",
             "Every history up to the stated depth leaves the measurements and all library state unchanged (the reachable state graph is one state with self-loops), every operation is bit-identical to the same call made first in a fresh interpreter, find_best_fit never loses against a single fit within the requested orders, fit_vle(None) never against a single method; PervaporationFunction evaluates to the stated formula and scales exactly.",
             "canonical state as described; best-of checked for explicitly requested orders"),
     "C17": (MC, "4.C17", "explicit-state breadth-first search over ALL save histories up to the stated depth (3 models x 2 storage modes x 2 harness-owned directory-name answers) on a real directory tree with a stubbed clock, invariant after every transition; exhaustive round-trip lattice for process models, curves, permeance functions and conditions",
             "No save in any explored history writes into or alters an earlier directory; each creates exactly one directory that loads back equal or raises leaving nothing behind (forced name collisions); load never writes; every round trip agrees to 1e-9 with compositions in mass basis.",
             "hash(datetime.now()) stubbed by module-attribute assignment; built-in mixtures only"),
-    "C20": (MC, "4.C20", "explicit-state breadth-first search over call histories on the real code: ~31 modelling operations sharing one set of argument objects; canonical hashing of the whole world (arguments, Mixtures/Components singletons, class defaults, module data); depth-1 closure + ordered pairs (+ triples); fresh-interpreter differential oracle for every operation",
+    "C20": (MC, "4.C20", "explicit-state breadth-first search over call histories on the real code: ~50 modelling operations sharing one set of argument objects; canonical hashing of the whole world (arguments, Mixtures/Components singletons, interpreter-wide numeric switches; class defaults and module data recorded); the harness edits every returned list/array in place; depth-1 closure + ordered pairs (+ triples); fresh-interpreter differential oracle for every operation",
             "Every operation of the menu is a self-loop on the canonical world (hence histories of any length leave the shared objects and built-ins unchanged), and every result - also as 2nd/3rd call of a history - is bit-identical to the same call made first in a fresh interpreter.",
             "state outside the canonical form is covered only through the pair/triple histories and the fresh-interpreter comparison"),
 }
